@@ -63,7 +63,8 @@ class Schema:
     datatype: str = None
     handler: str = None
     prefix: str = None
-    imports: tuple = ()            # package names imported at the top (C11/C12)
+    imports: tuple = ()            # package names imported by the schema (C11/C12)
+    import_pos: int = 0            # the <import> elements are rendered before types[import_pos]
     extends: tuple = ()            # base schema file names (C11)
 
 
@@ -126,10 +127,14 @@ def render_type(t, ind="  "):
 def render(s):
     out = ["<schema" + _a(keytype=s.keytype, datatype=s.datatype, handler=s.handler, prefix=s.prefix,
                           extends=" ".join(s.extends) if s.extends else None) + ">"]
-    for p in s.imports:
-        out.append("  <import package=%s/>" % quoteattr(p))
-    for t in s.types:
+    for i, t in enumerate(s.types):
+        if i == s.import_pos:
+            for p in s.imports:
+                out.append("  <import package=%s/>" % quoteattr(p))
         out += render_type(t)
+    if s.import_pos >= len(s.types):
+        for p in s.imports:
+            out.append("  <import package=%s/>" % quoteattr(p))
     for it in s.items:
         out += render_item(it)
     out.append("</schema>")
